@@ -8,6 +8,8 @@
   an `error` result a `Bool` (every error the encoders return is a WriterException).
 -/
 import Gzx.Gen.K03w
+import Gzx.GoMExt
+import Gzx.GoMK03w
 import Gzx.KernelGuard
 import Gzx.Proofs.K10
 import Gzx.Obligations.K10
@@ -140,7 +142,9 @@ theorem k_appendPattern_eq (done rest : List Int) (pat : List Nat) (c : Bool) :
   rw [List.drop_zero, List.take_of_length_le (by simp), k_appendPattern_fold]
   by_cases h : OneD.sumL pat ≤ rest.length <;> simp [h]
 
+when_kernel Gzx.Gen.K03w.appendPattern in
 example : Gen.K03w.appendPattern [0, 0, 0, 0, 0, 0, 0] 1 [1, 2, 1] true = .ok (4, [0, 1, 0, 0, 1, 0, 0]) := by decide
+when_kernel Gzx.Gen.K03w.appendPattern in
 example : Gen.K03w.appendPattern [0, 0, 0] 1 [1, 2, 1] true = .error oob := by decide
 
 /-! ## `onedWriter_checkNumeric` (`for _, c := range contents`: the runes of the string) -/
@@ -213,6 +217,7 @@ theorem k_checkNumeric_eq (s : List Nat) :
   rw [List.drop_zero, List.take_of_length_le (by simp), runes, cn_fold s _ (by simp [bytes])]
   cases allDigits s <;> rfl
 
+when_kernel Gzx.Gen.K03w.checkNumeric in
 example : Gen.K03w.checkNumeric (bytes [49, 50, 0xC3, 0xA9]) = .ok true := by decide
 
 /-! ## shared pieces of the UPC/EAN encoders -/
@@ -609,6 +614,7 @@ theorem k_ean8Encode_eq (s : List Nat) (hs : ∀ b ∈ s, b < 256) :
         simp only [n1, h8, if_false]
       simp only [c7, c8, Bool.false_eq_true, if_false, ean8Modules_err s hm, encRes]
 
+when_kernel Gzx.Gen.K03w.ean8Encode in
 example : Gen.K03w.ean8Encode (bytes [49, 50, 51, 52, 53, 54, 55]) = encRes (ean8Modules refTables [49, 50, 51, 52, 53, 54, 55]) :=
   k_ean8Encode_eq _ (by decide)
 
@@ -890,6 +896,7 @@ theorem k_ean13Encode_eq (s : List Nat) (hs : ∀ b ∈ s, b < 256) :
         simp only [n1, h13, if_false]
       simp only [c12, c13, Bool.false_eq_true, if_false, ean13Modules_err s hm, encRes]
 
+when_kernel Gzx.Gen.K03w.ean13Encode in
 example : Gen.K03w.ean13Encode LG (bytes (bytesOf "590123412345")) = encRes (ean13Modules refTables (bytesOf "590123412345")) :=
   k_ean13Encode_eq _ (by decide)
 
